@@ -131,14 +131,25 @@ pub trait ViewApi: Sized {
     fn source(&self) -> &str;
 }
 
+/// Copy a `&str` handed out by the code under test. The view builds its lines with
+/// `from_utf8_unchecked`, so a defect there can hand out a `str` that is not UTF-8; formatting
+/// or comparing such a value is undefined behaviour, so it is validated first and replaced by
+/// a visible marker (which then fails the comparison with the model like any wrong answer).
+pub fn own(s: &str) -> String {
+    match std::str::from_utf8(s.as_bytes()) {
+        Ok(v) => v.to_owned(),
+        Err(_) => format!("<INVALID UTF-8 returned by the library: {}>", crate::hash::hex(s.as_bytes())),
+    }
+}
+
 pub fn apply<V: ViewApi>(v: &V, call: &Call) -> Res {
     match *call {
-        Call::GetLine(i) => Res::Line(v.get_line(i).map(str::to_owned)),
+        Call::GetLine(i) => Res::Line(v.get_line(i).map(own)),
         Call::LineCount => Res::Count(v.line_count() as u64),
         Call::Lines => Res::Lines(v.lines_collect(None)),
         Call::LinesTake(k) => Res::Lines(v.lines_collect(Some(k))),
-        Call::GetLineSlice(l, c, n) => Res::Slice(v.get_line_slice(l, c, n).map(str::to_owned)),
-        Call::Source => Res::Text(v.source().to_owned()),
+        Call::GetLineSlice(l, c, n) => Res::Slice(v.get_line_slice(l, c, n).map(own)),
+        Call::Source => Res::Text(own(v.source())),
     }
 }
 
